@@ -16,6 +16,8 @@ RETRIABLE = {22: (14, 15, 16, 51), 24: (14, 15, 16, 51, 3), 25: (14, 15, 16, 51)
              28: (14, 15, 16, 3), 10: (15,), 0: (6, 5, 3, 7, 19)}
 ABORTABLE = {24: (29,), 25: (30,), 28: (30,)}
 FATAL = {24: (47, 53), 25: (47, 53), 26: (47,), 28: (47, 53), 0: (47, 45)}
+# a leader refusing one batch for good (MESSAGE_TOO_LARGE): the batch fails, the transaction cannot commit
+PRODUCE_REJECT = {0: (10,)}
 TRANSPORT = ["drop_before", "drop_after", "timeout_before", "timeout_after", "node_down_failover"]
 
 
@@ -35,6 +37,8 @@ class TxnFaults:
             m += [("error", c) for c in RETRIABLE.get(k, ())] + TRANSPORT
         if "abortable" in self.kinds:
             m += [("error", c) for c in ABORTABLE.get(k, ())]
+        if "produce_reject" in self.kinds:
+            m += [("error", c) for c in PRODUCE_REJECT.get(k, ())]
         if "fatal" in self.kinds:
             m += [("error", c) for c in FATAL.get(k, ())]
         return m
@@ -45,6 +49,8 @@ class TxnFaults:
                 return "abortable"
             if f[1] in FATAL.get(k, ()):
                 return "fatal"
+            if f[1] in PRODUCE_REJECT.get(k, ()):
+                return "produce_reject"
         return "retriable"
 
     def __call__(self, cluster, node, req, entry):
